@@ -513,3 +513,177 @@ Proof.
   destruct (needs_mono ps args j); auto.
   apply nth_error_repeat. auto.
 Qed.
+(* ------------------------------------------------------------- composition modulo annotations *)
+Lemma erase_insf : forall l t, erase (insf l t) = insf (map erase l) (erase t).
+Proof.
+  intros l. unfold insf. set (s' := map Some (map erase l)).
+  induction t using tm_ind'; simpl; auto.
+  - subst s'. rewrite !nth_error_map_Some, nth_error_map, !map_length.
+    destruct (nth_error l i); simpl; auto.
+  - f_equal. rewrite !map_map. now apply map_ext_Forall.
+  - f_equal. rewrite !map_map. now apply map_ext_Forall.
+  - f_equal; auto. rewrite !map_map. now apply map_ext_Forall.
+  - subst s'. rewrite !nth_error_map_Some, nth_error_map, !map_length.
+    destruct (nth_error l i); simpl; auto.
+Qed.
+
+Lemma scoped_erase : forall n t, scoped n t = true -> scoped n (erase t) = true.
+Proof.
+  intros n. induction t using tm_ind'; simpl; intros S; auto.
+  - rewrite forallb_forall in *. intros x Hx. apply in_map_iff in Hx. destruct Hx as [y [<- Hy]].
+    rewrite Forall_forall in H. auto.
+  - rewrite forallb_forall in *. intros x Hx. apply in_map_iff in Hx. destruct Hx as [y [<- Hy]].
+    rewrite Forall_forall in H. auto.
+  - apply andb_true_iff in S. destruct S as [S1 S2]. apply andb_true_iff. split; auto.
+    rewrite forallb_forall in *. intros x Hx. apply in_map_iff in Hx. destruct Hx as [y [<- Hy]].
+    rewrite Forall_forall in H. auto.
+  - apply andb_true_iff in S. destruct S as [S1 S2]. now rewrite S1.
+Qed.
+
+Lemma insf_app_len : forall pre ext t n, length pre = n -> scoped n t = true ->
+  insf (pre ++ ext) t = insf pre t.
+Proof. intros. subst. now apply insf_app. Qed.
+
+Lemma map_insf_app_len F x l n : length F = n -> Forall (fun t => scoped n t = true) l ->
+  map (insf (F ++ x)) l = map (insf F) l.
+Proof. intros. subst. now apply map_insf_app. Qed.
+
+Lemma insf_erased_bound : forall F x X p n, length F = n ->
+  insf (F ++ x :: X) (erase (to_bound (with_idx n p))) = x.
+Proof.
+  intros F x X p n <-. destruct p; unfold insf; simpl;
+    rewrite map_app, nth_error_app2 by (rewrite map_length; lia);
+    rewrite map_length, Nat.sub_diag; reflexivity.
+Qed.
+
+Lemma erase_bound_rebound k k' s p :
+  erase (to_bound (with_idx k (inst_bounds s (with_idx k' p)))) = erase (to_bound (with_idx k p)).
+Proof. destruct p; reflexivity. Qed.
+
+Lemma scoped_erased_bound k p : scoped (S k) (erase (to_bound (with_idx k p))) = true.
+Proof. destruct p; simpl; rewrite ?andb_true_r; apply Nat.ltb_lt; lia. Qed.
+
+Lemma wf_params_cons k p ps : wf_params k (p :: ps) = true ->
+  (match p with PCon _ t _ => scoped k t = true | _ => True end) /\ wf_params (S k) ps = true.
+Proof.
+  simpl. intros H. apply andb_true_iff in H. destruct H as [H H2].
+  apply andb_true_iff in H. destruct H as [_ H1]. destruct p; auto.
+Qed.
+
+Lemma erase_entry F1 F2 F12 k1 k2 p :
+  (match p with PCon _ t _ => scoped (length F1) t = true | _ => True end) ->
+  map erase F12 = map (insf (map erase F2)) (map erase F1) ->
+  erase_param (inst_bounds (map Some F2) (with_idx k2 (inst_bounds (map Some F1) (with_idx k1 p))))
+  = erase_param (inst_bounds (map Some F12) (with_idx k2 p)).
+Proof.
+  intros SC E. destruct p as [|i t c]; simpl; auto. f_equal.
+  change (erase (insf F2 (insf F1 t)) = erase (insf F12 t)).
+  rewrite !erase_insf, E. apply insf_compose. rewrite map_length. now apply scoped_erase.
+Qed.
+
+Lemma ip_spec_compose_erased : forall ps a1 a2 F1 F2 F12 k2,
+  wf_params (length F1) ps = true -> forallb arg_closed a1 = true ->
+  length a1 = length ps -> length a2 = length (filter is_none a1) ->
+  Forall (fun t => scoped (length F2) t = true) (map erase F1) ->
+  map erase F12 = map (insf (map erase F2)) (map erase F1) ->
+  map erase (fst (ip_spec ps (compose_args a1 a2) F12 k2))
+    = map (insf (map erase (F2 ++ fst (ip_spec (snd (ip_spec ps a1 F1 (length F2))) a2 F2 k2))))
+          (map erase (fst (ip_spec ps a1 F1 (length F2))))
+  /\ map erase_param (snd (ip_spec ps (compose_args a1 a2) F12 k2))
+     = map erase_param (snd (ip_spec (snd (ip_spec ps a1 F1 (length F2))) a2 F2 k2)).
+Proof.
+  induction ps as [|p ps IH]; intros a1 a2 F1 F2 F12 k2 WF CA L1 L2 SC E.
+  - destruct a1; simpl in *; try discriminate. destruct a2; simpl in *; try discriminate. auto.
+  - apply wf_params_cons in WF. destruct WF as [Wp WF].
+    destruct a1 as [|[x|] a1]; simpl in L1; try discriminate.
+    + simpl in CA. apply andb_true_iff in CA. destruct CA as [Cx CA].
+      assert (Cs : scoped 0 (erase (set_preserve x)) = true)
+        by (apply scoped_erase; now apply set_preserve_scoped).
+      simpl.
+      specialize (IH a1 a2 (F1 ++ [set_preserve x]) F2 (F12 ++ [set_preserve x]) k2).
+      rewrite app_length, Nat.add_1_r in IH. specialize (IH WF CA ltac:(lia) L2).
+      rewrite !map_app in IH. simpl in IH.
+      match type of IH with ?A -> _ => assert (HA : A) end.
+      { apply Forall_app. split; auto. constructor; auto. eapply scoped_mono; [|exact Cs]. lia. }
+      specialize (IH HA). clear HA.
+      match type of IH with ?A -> _ => assert (HA : A) end.
+      { rewrite E. f_equal. f_equal. symmetry. now apply insf_closed. }
+      specialize (IH HA). clear HA.
+      destruct IH as [IH1 IH2].
+      split; [|exact IH2].
+      rewrite !map_app. rewrite IH1. f_equal. symmetry. now apply insf_closed.
+    + simpl in CA. simpl in L2.
+      destruct a2 as [|y a2]; simpl in L2; try discriminate.
+      assert (SB := scoped_erased_bound (length F2) p).
+      destruct y as [z|].
+      * simpl. rewrite !sp_to_bound.
+        specialize (IH a1 a2 (F1 ++ [to_bound (with_idx (length F2) p)]) (F2 ++ [set_preserve z])
+                       (F12 ++ [set_preserve z]) k2).
+        rewrite !app_length, !Nat.add_1_r in IH. specialize (IH WF CA ltac:(lia) ltac:(lia)).
+        rewrite !map_app in IH. simpl in IH.
+        match type of IH with ?A -> _ => assert (HA : A) end.
+        { apply Forall_app. split. eapply Forall_scoped_mono; [|exact SC]; lia. constructor; auto. }
+        specialize (IH HA). clear HA.
+        match type of IH with ?A -> _ => assert (HA : A) end.
+        { rewrite E. f_equal.
+          - symmetry. apply map_insf_app_len with (n := length F2); auto. now rewrite map_length.
+          - f_equal. symmetry. apply insf_erased_bound. now rewrite map_length. }
+        specialize (IH HA). clear HA.
+        destruct IH as [IH1 IH2].
+        split; [|exact IH2].
+        rewrite IH1. rewrite !map_app. simpl. rewrite <- !app_assoc. simpl.
+        f_equal. symmetry. apply insf_erased_bound. now rewrite map_length.
+      * simpl. rewrite !sp_to_bound.
+        specialize (IH a1 a2 (F1 ++ [to_bound (with_idx (length F2) p)])
+                       (F2 ++ [to_bound (with_idx k2 (inst_bounds (map Some F1) (with_idx (length F2) p)))])
+                       (F12 ++ [to_bound (with_idx k2 p)]) (S k2)).
+        rewrite !app_length, !Nat.add_1_r in IH. specialize (IH WF CA ltac:(lia) ltac:(lia)).
+        rewrite !map_app in IH. simpl in IH. rewrite erase_bound_rebound in IH.
+        match type of IH with ?A -> _ => assert (HA : A) end.
+        { apply Forall_app. split. eapply Forall_scoped_mono; [|exact SC]; lia. constructor; auto. }
+        specialize (IH HA). clear HA.
+        match type of IH with ?A -> _ => assert (HA : A) end.
+        { rewrite E. f_equal.
+          - symmetry. apply map_insf_app_len with (n := length F2); auto. now rewrite map_length.
+          - f_equal. symmetry. apply insf_erased_bound. now rewrite map_length. }
+        specialize (IH HA). clear HA.
+        destruct IH as [IH1 IH2].
+        split.
+        -- rewrite IH1. rewrite !map_app. simpl. rewrite <- !app_assoc. simpl.
+           rewrite ?erase_bound_rebound.
+           f_equal. symmetry. apply insf_erased_bound. now rewrite map_length.
+        -- simpl. rewrite IH2. f_equal. symmetry. now apply erase_entry.
+Qed.
+
+Lemma erase_sp a : erase (set_preserve a) = set_preserve (erase a).
+Proof. destruct a; reflexivity. Qed.
+
+Lemma ip_compose_erased : forall f a1 a2,
+  wf_fty f = true -> forallb arg_closed a1 = true ->
+  length a1 = length (f_params f) -> length a2 = length (filter is_none a1) ->
+  erase_fty (instantiate_partial (instantiate_partial f a1) a2)
+  = erase_fty (instantiate_partial f (compose_args a1 a2)).
+Proof.
+  intros f a1 a2 WF CA L1 L2. unfold instantiate_partial.
+  rewrite (ip_loop_spec (f_params f) a1 [] []). simpl.
+  rewrite (ip_loop_spec _ a2 [] []). simpl.
+  rewrite (ip_loop_spec (f_params f) (compose_args a1 a2) [] []). simpl.
+  unfold wf_fty in WF. repeat (apply andb_true_iff in WF; destruct WF as [WF ?]).
+  destruct (ip_spec_compose_erased (f_params f) a1 a2 [] [] [] 0 WF CA L1 L2 (Forall_nil _) eq_refl)
+    as [E1 E2].
+  simpl in E1, E2.
+  assert (LL := ip_spec_fst_length (f_params f) a1 [] 0 L1).
+  assert (K : forall t, scoped (length (f_params f)) t = true ->
+     erase (insf (fst (ip_spec (snd (ip_spec (f_params f) a1 [] 0)) a2 [] 0))
+                 (insf (fst (ip_spec (f_params f) a1 [] 0)) t))
+     = erase (insf (fst (ip_spec (f_params f) (compose_args a1 a2) [] 0)) t)).
+  { intros t St. rewrite !erase_insf, E1. apply insf_compose.
+    rewrite map_length, LL. now apply scoped_erase. }
+  unfold erase_fty. simpl. f_equal.
+  - rewrite !map_map. apply map_ext_sc with (b := scoped (length (f_params f))); auto.
+    apply Forall_forall. intros. now apply K.
+  - now apply K.
+  - exact (eq_sym E2).
+  - rewrite !map_map. apply map_ext_sc with (b := scoped (length (f_params f))); auto.
+    apply Forall_forall. intros. now apply K.
+Qed.
